@@ -443,6 +443,59 @@ func (g *Gen) generate(size int, withTest bool) ([]SrcFile, bool) {
 		g.add(-1, "const (\n"+strings.Join(lines, "\n")+"\n)")
 	}
 
+	// const groups in which a NON-first specification spans several lines and is followed by implicit repetitions;
+	// only a late member is referenced (rule 10.1: the group is one unit whatever the layout of its specifications)
+	nML := 0
+	if r.Chance(55) {
+		nML = 1 + r.Intn(2)
+	}
+	for c := 0; c < nML; c++ {
+		typ := ""
+		if r.Chance(30) {
+			if c == 0 {
+				g.add(-1, "type cyenum int")
+			}
+			if c == 0 {
+				typ = " cyenum"
+			}
+		}
+		multi := []string{
+			"iota *\n\t\t10",
+			"int(\n\t\tiota,\n\t) + 1",
+			"iota + // scaled\n\t\t// further down\n\t\t2",
+			"(iota +\n\t\t1) *\n\t\t3",
+		}[r.Intn(4)]
+		if typ != "" {
+			multi = strings.Replace(multi, "int(", "cyenum(", 1)
+		}
+		var lines []string
+		first := fmt.Sprintf("\tcyk%d_0%s = iota", c, typ)
+		lines = append(lines, first)
+		pos := 1
+		if r.Chance(30) {
+			lines = append(lines, fmt.Sprintf("\tcyk%d_1", c))
+			pos = 2
+		}
+		if r.Chance(25) {
+			// the multi-line specification opens a second group
+			lines = append(lines, "")
+		}
+		lines = append(lines, fmt.Sprintf("\tcyk%d_%d%s = %s", c, pos, typ, multi))
+		nrep := 1 + r.Intn(3)
+		for j := 0; j < nrep; j++ {
+			lines = append(lines, fmt.Sprintf("\tcyk%d_%d", c, pos+1+j))
+		}
+		last := fmt.Sprintf("cyk%d_%d", c, pos+nrep)
+		block := "const (\n" + strings.Join(lines, "\n") + "\n)"
+		if r.Chance(25) {
+			// the same inside a function
+			g.add(-1, fmt.Sprintf("func CyK%d() int {\n\t%s\n\treturn int(%s)\n}", c, strings.ReplaceAll(block, "\n", "\n\t"), last))
+		} else {
+			g.add(-1, block)
+			g.add(-1, fmt.Sprintf("var _ = %s", last))
+		}
+	}
+
 	// ---- functions
 	nFunc := 2 + r.Intn(size)
 	for i := 0; i < nFunc; i++ {
@@ -694,6 +747,9 @@ func (s *stmtGen) collect() {
 		case *types.Var:
 			s.vars = append(s.vars, o)
 		case *types.Const:
+			if strings.HasPrefix(n, "cy") {
+				continue
+			}
 			s.consts = append(s.consts, o)
 		}
 	}
@@ -1175,6 +1231,29 @@ type outer struct {
 }
 
 func Use() interface{ m() } { return &outer{} }
+`}},
+		// rule 10.1 with a multi-line specification in the middle of the group; only the last member is referenced
+		"constmultiline": {{Name: "a.go", Src: `package p
+
+type level int
+
+const (
+	kA level = iota
+	kB level = iota *
+		10
+	kC
+	kD
+)
+
+func Use() int {
+	const (
+		la = iota
+		lb = iota + // note
+			1
+		lc
+	)
+	return int(kD) + lc
+}
 `}},
 		// rule 10.1 / 5.1 / 8.2 in one small package
 		"mixed": {{Name: "a.go", Src: `package p
